@@ -73,6 +73,18 @@ def chainSpecB (nb : V → List V) (comp : List V) (so : V → Option Int) (tag 
   (let scaf := (c.aps.filterMap (fun a => match tag a, so a with | some t, some o => some (t.1, o) | _, _ => none))
    scaf.all (fun x => scaf.all (fun y => !(decide (x.1 < y.1)) || decide (x.2 < y.2))))
 
+/-- the scaffold nodes, taken in order of increasing reference offset, follow the chain: consecutive ones are joined by a bridge or
+    lie on one bubble (and their offsets are pairwise different). When this fails — the reference is rearranged relative to the
+    graph — no BO assignment can satisfy `chainSpecB` (its last clause wants the offsets to increase with BO, its adjacency clause
+    wants BO to follow the chain); such a component is outside C06's quantifier, and the tool reports and skips it. -/
+def refOrdered (c : Chain) (so : V → Option Int) : Bool :=
+  let withSo := c.aps.filterMap (fun a => (so a).map (fun o => (o, a)))
+  withSo.length == c.aps.length &&
+  (let sorted := withSo.mergeSort (fun x y => decide (x.1 ≤ y.1))
+   (List.zip sorted sorted.tail).all (fun p => decide (p.1.1 < p.2.1) &&
+      (c.bridges.any (fun q => (q.1 == p.1.2 && q.2 == p.2.2) || (q.1 == p.2.2 && q.2 == p.1.2)) ||
+       c.bubbles.any (fun b => b.2.contains p.1.2 && b.2.contains p.2.2))))
+
 /-- C07 for one written component: the output file against the input file -/
 def stripBoNo (tags : List Tag) : List Tag := tags.filter (fun t => t.name != "BO" && t.name != "NO")
 
